@@ -165,7 +165,17 @@ func cosmosCrashCase(prop string, c *Ctx, idx int) CaseResult {
 				}
 			case prop == "C11":
 				// only plans durably Running are considered: anything else is exactly as the dead process left it
-				if sk.Status("P") != spec.Running {
+				if sk.Status("P") == spec.Running {
+					// ... and a plan durably Running IS considered: the next process resumes it (it was active moments
+					// ago, far inside the default maximum age), so it does not stay Running
+					if fp := rec.Finals[i]; !rec.Returned[i] || fp == nil || !isTerminal(fp.Status("P")) {
+						st := "unreadable"
+						if fp != nil {
+							st = stName(fp.Status("P"))
+						}
+						vs = append(vs, ev.V("C11", "running-not-considered", st, "the plan document was durably Running when the process died; the next process did not resume it (waited for: %v, plan now %s)", rec.Returned[i], st))
+					}
+				} else {
 					if len(t.Invs) > 0 {
 						vs = append(vs, ev.V("C11", "not-running-executed", stName(sk.Status("P")), "the plan document was durably %s when the process died, yet %s was invoked after restart", stName(sk.Status("P")), t.Invs[0].Tag))
 					} else if fp := rec.Finals[i]; fp != nil {
